@@ -167,7 +167,16 @@ fn execute_real(
     let scratch = tierb::Scratch::new()?;
     tierb::materialize(&scratch.root, entries, walk_seed)?;
     let before = tierb::snapshot(&scratch.root);
-    let first = tierb::run_binary(&scratch.root, &args, hash_seed)?;
+    let canon = |outcome: Outcome| match outcome {
+        Outcome::Done { errors, success } => {
+            let mut errors: Vec<String> = errors.iter().map(|e| exec::canon_text(e, opts)).collect();
+            errors.sort();
+            Outcome::Done { errors, success }
+        }
+        other => other,
+    };
+    let mut first = tierb::run_binary(&scratch.root, &args, hash_seed)?;
+    first.outcome = canon(first.outcome);
     if let Outcome::BatchErr(msg) = &first.outcome {
         if msg.starts_with("harness:") {
             return Err(msg.clone());
@@ -176,7 +185,7 @@ fn execute_real(
     let after = tierb::snapshot(&scratch.root);
     let rerun = if rerun {
         let second = tierb::run_binary(&scratch.root, &args, hash_seed)?;
-        Some((second.outcome, tierb::snapshot(&scratch.root), Vec::new()))
+        Some((canon(second.outcome), tierb::snapshot(&scratch.root), Vec::new()))
     } else {
         None
     };
@@ -1132,6 +1141,7 @@ pub fn generate(seed: u64) -> C11Scenario {
         allow_bundle: true,
         memory_safe: backend == Backend::Memory,
         allow_outside: matches!(backend, Backend::SimFs | Backend::Memory),
+        allow_source_alias: true,
     };
     let mut project = gen::gen_project(&mut rp, &knobs);
     if minify {
@@ -1142,7 +1152,11 @@ pub fn generate(seed: u64) -> C11Scenario {
         }
         project.data.clear();
     }
+    if minify {
+        project.sources.retain(|s| !s.via_source);
+    }
     let mut parts = gen::gen_config_parts(&mut rc, project.bundle.as_deref());
+    parts.bundle_sources = project.sources.iter().any(|s| s.via_source);
     let mut convert_to_path = false;
     if project.convert {
         if rc.chance(1, 3) {
@@ -1166,6 +1180,11 @@ pub fn generate(seed: u64) -> C11Scenario {
     let config_text = parts.to_text();
     let mut invocation =
         gen::gen_invocation(&mut rk, &project, &config_text, true, !real, backend, true);
+    project.source_base = match &invocation.opts.config {
+        crate::model::ConfigSource::Object(_) => gen::SourceBase::RequirerDir,
+        crate::model::ConfigSource::Default => gen::SourceBase::Dir(String::new()),
+        crate::model::ConfigSource::At(path) => gen::SourceBase::Dir(gen::parent(path).to_owned()),
+    };
     if project.convert && !convert_to_path {
         // the sourcemap sits next to the configuration file
         let config_path = invocation
